@@ -111,6 +111,15 @@ def calls(C):
     add("Sid(SEARCH)", lambda: Sid(SEARCH))
     for t in forced:
         add(f"Sid({t}:SEARCH)", lambda t=t: Sid(t + ":" + SEARCH))
+    # a Sid object as argument (the caches are keyed on the argument: a Sid object and its bare string must not collide)
+    for t in forced:
+        add(f"Sid(Sid({t}:SEARCH))", lambda t=t: Sid(Sid(t + ":" + SEARCH)))
+        add(f"Sid({t}:SEARCH).copy().path()", lambda t=t: Sid(t + ":" + SEARCH).copy().path())
+    add("Sid(Sid(LEAF))", lambda: Sid(Sid(LEAF)))
+    add("unf(Sid(S))", lambda: unfold_search(Sid(SEARCH)), group="unfS-default")
+    add("unf(Sid(last-forced:S))", lambda: unfold_search(Sid(forced[-1] + ":" + SEARCH)))
+    add("simple_typing(Sid(last-forced:S))", lambda: simple_typing(Sid(forced[-1] + ":" + SEARCH)))
+    add("get_finder(str LEAF)", lambda: get_finder(LEAF))
     add("Sid(junk)", lambda: Sid("bla/bla"))
     add("Sid(LEAF?q)", lambda: Sid(LEAF + "?" + keys[-1] + "=" + other_last))
     add("Sid(LEAF?bad)", lambda: Sid(LEAF + "?" + keys[-1] + "=bogus"))
